@@ -124,7 +124,7 @@ func FamFunc(thorough bool) Family {
 		for _, n := range []int{0, 1, 10, 300} {
 			items = append(items, Item{Key: "func|recursion|depth", Desc: fmt.Sprint("sumTo ", n), Stmts: fmt.Sprintf("\t\tprintln(sumto@G@(%d))", n)})
 		}
-		items = append(items, Item{Key: "func|recursion|slice-argument", Desc: "sum of slice by recursion", Stmts: "\t\tprintln(ssum@G@([]int32{1, 2, 3, 4, 5}), ssum@G@(nil))"})
+		items = append(items, Item{Key: "func|recursion|slice-argument", Desc: "sum of slice by recursion", Stmts: "\t\tprintln(ssum@G@(1, []int32{1, 2, 3, 4, 5}), ssum@G@(2, nil))"})
 		items = append(items, Item{Key: "func|recursion|multi-value", Desc: "divmod by recursion", Stmts: "\t\tprintln(dm@G@(17, 5))\n\t\tprintln(dm@G@(3, 5))"})
 		items = append(items, Item{Key: "func|recursion|hanoi", Desc: "hanoi trace", Stmts: "\t\thanoi@G@(3, 1, 3, 2)"})
 		sc = append(sc, funcScen{desc: "recursion", multipleItems: items, decls: `func fact@G@(n int64) int64 {
@@ -172,11 +172,11 @@ func sumto@G@(n int32) int32 {
 	}
 	return n + sumto@G@(n-1)
 }
-func ssum@G@(s []int32) int32 {
+func ssum@G@(k int32, s []int32) int32 {
 	if len(s) == 0 {
 		return 0
 	}
-	return s[0] + ssum@G@(s[1:])
+	return k*s[0] + ssum@G@(k, s[1:])
 }
 func dm@G@(a, b int32) (q, r int32) {
 	if a < b {
@@ -198,8 +198,17 @@ func hanoi@G@(n, from, to, via int32) {
 	add("func|recursion|closure", "recursive closure through a variable",
 		"", "\t\tvar f func(n int32) int32\n\t\tf = func(n int32) int32 {\n\t\t\tif n <= 1 {\n\t\t\t\treturn 1\n\t\t\t}\n\t\t\treturn n * f(n-1)\n\t\t}\n\t\tprintln(f(1), f(5), f(10))")
 	add("func|recursion|method", "recursive method on a linked list",
+		"type node@G@ struct {\n\tv    int32\n\tnext *node@G@\n}\nfunc (n *node@G@) sum() int32 {\n\tif n.next == nil {\n\t\treturn n.v\n\t}\n\treturn n.v + n.next.sum()\n}\n",
+		"\t\tl := &node@G@{1, &node@G@{2, &node@G@{3, nil}}}\n\t\tprintln(l.sum(), l.next.sum())")
+	add("func|method|nil pointer receiver", "a method with pointer receiver may be called on a nil pointer",
 		"type node@G@ struct {\n\tv    int32\n\tnext *node@G@\n}\nfunc (n *node@G@) sum() int32 {\n\tif n == nil {\n\t\treturn 0\n\t}\n\treturn n.v + n.next.sum()\n}\n",
-		"\t\tl := &node@G@{1, &node@G@{2, &node@G@{3, nil}}}\n\t\tprintln(l.sum(), l.next.sum())\n\t\tvar e *node@G@\n\t\tprintln(e.sum())")
+		"\t\tl := &node@G@{1, &node@G@{2, nil}}\n\t\tprintln(l.sum())\n\t\tvar e *node@G@\n\t\tprintln(e.sum())")
+	add("func|parameter|first parameter of slice type", "func f(s []int32): WaGo syntax, slice type directly after the first parameter name",
+		"func fs@G@(s []int32) int32 { return int32(len(s)) }\n", "\t\tprintln(fs@G@([]int32{1, 2}), fs@G@(nil))")
+	add("func|parameter|first parameter of array type", "func f(a [2]int32)",
+		"func fa@G@(a [2]int32) int32 { return a[0] + a[1] }\n", "\t\tprintln(fa@G@([2]int32{1, 2}))")
+	add("func|parameter|two parameters sharing a slice type", "func f(s, t []int32)",
+		"func ft@G@(s, t []int32) int32 { return int32(len(s) + len(t)) }\n", "\t\tprintln(ft@G@([]int32{1, 2}, nil))")
 
 	// ---- variadic functions: call form x callee
 	{
